@@ -1,6 +1,6 @@
 (* C08: the obligations of Properties.v, proved (statement for statement) *)
 From OlaBase Require Import Bytes.
-From C08 Require Import Gen Model Spec ListLemmas SacnTrack SacnProofs SacnThms ArtProofs ArtDistinct SeqInv TextSpec TextThm.
+From C08 Require Import Gen Model Spec ListLemmas SacnTrack SacnProofs SacnThms ArtProofs ArtDistinct SeqInv TextSpec TextThm TextCheck.
 Local Open Scope N_scope.
 
 Lemma c08_consts_l :
@@ -142,4 +142,22 @@ Lemma c08_sacn_seq_range_l :
     (forall np, In np h -> p_seq (snd np) < 256) ->
     forall s, In s (u_srcs (fst (grun c init_ust [] h))) -> s_seq s < 256.
 Proof. intros c h B. exact (grun_seq c h B). Qed.
+
+Lemma c08_text_checker_l :
+  (forall merged frozen now T D buf,
+     verdict merged frozen now T D buf = 0 <-> buf = text_out now T) /\
+  (forall merged frozen now T D buf,
+     verdict merged frozen now T D buf = 1 ->
+     buf <> text_out now T /\ buf = text_out_unshadowed now T D) /\
+  (forall merged frozen now T D buf,
+     verdict merged frozen now T D buf = 2 ->
+     merged = false /\ buf <> text_out now T /\ buf = frozen /\ buf <> text_out_unshadowed now T D) /\
+  (forall c now keep rx T D p,
+     dlook D (p_cid p) = false ->
+     (forall r, tlook T (p_cid p) = Some r -> t_alive r = true ->
+                behind (t_seq r) (p_seq p) <= 19 -> now <= t_time r + 2500000) ->
+     fst (fst (xstep c now keep rx T D p)) = tstep c now T p).
+Proof.
+  split; [exact verdict_zero|]. split; [exact verdict_d1|]. split; [exact verdict_d2 | exact xstep_tstep].
+Qed.
 
